@@ -392,6 +392,68 @@ func sprintfToLayout(f string) string {
 	return out
 }
 
+// formatLayoutFor: the distinct layouts (Time.Format) or patterns (fmt.Sprintf
+// with %d verbs) a fhirconv formatter uses for an element whose precision is
+// pv; n is their number.
+func formatLayoutFor(p *Program, fn *ssa.Function, typ, pv string) (string, int, error) {
+	t := typeByName(p, dtPkgPath, typ)
+	if t == nil {
+		return "", 0, fmt.Errorf("anchor: datatypes %s not found", typ)
+	}
+	var cv constant.Value
+	if pk := p.SSAPkg[dtPkgPath]; pk != nil {
+		if c, ok := pk.Pkg.Scope().Lookup(pv).(*types.Const); ok {
+			cv = c.Val()
+		}
+	}
+	if cv == nil {
+		return "", 0, fmt.Errorf("anchor: enum value %s not found", pv)
+	}
+	st := t.Underlying().(*types.Struct)
+	e := aval{k: kStruct}
+	for i := 0; i < st.NumFields(); i++ {
+		switch st.Field(i).Name() {
+		case "ValueUs":
+			e.elems = append(e.elems, cInt(1582981509120000)) // 2020-02-29T13:05:09.12Z
+		case "Timezone":
+			e.elems = append(e.elems, cStr("UTC"))
+		case "Precision":
+			e.elems = append(e.elems, aval{k: kConst, c: cv})
+		default:
+			e.elems = append(e.elems, zeroOf(st.Field(i).Type()))
+		}
+	}
+	an := newAnalyzer()
+	an.maxBlocks = 300
+	an.maxDepth = 6
+	res := an.analyze(fn, []aval{ptrTo(e)})
+	seen := map[string]bool{}
+	for _, co := range res.calls {
+		if co.callee == nil {
+			continue
+		}
+		switch co.callee.RelString(nil) {
+		case "(time.Time).Format":
+			if len(co.args) == 2 && co.args[1].k == kConst && co.args[1].c.Kind() == constant.String {
+				seen[constant.StringVal(co.args[1].c)] = true
+			} else {
+				seen["?"] = true
+			}
+		case "fmt.Sprintf":
+			if len(co.args) >= 1 && co.args[0].k == kConst && co.args[0].c.Kind() == constant.String {
+				if f := constant.StringVal(co.args[0].c); strings.Contains(f, "%0") {
+					seen[f] = true
+				}
+			}
+		}
+	}
+	lay := ""
+	for k := range seen {
+		lay = k
+	}
+	return lay, len(seen), nil
+}
+
 func ruleLIT2(p *Program) *RuleResult {
 	r := newResult("LIT2")
 	for _, t := range []struct{ typ, parse, format string }{
@@ -404,17 +466,43 @@ func ruleLIT2(p *Program) *RuleResult {
 		if err != nil {
 			return r.anchorFail(err)
 		}
-		frows, fpos, err := formatSwitchRows(p, "internal/fhirconv", t.format)
+		ffn, err := p.Func("internal/fhirconv", t.format)
 		if err != nil {
 			return r.anchorFail(err)
 		}
-		if len(rows) == 0 || len(frows) == 0 {
-			return r.anchorFail(fmt.Errorf("anchor: no layout table in fhir.%s / fhirconv.%s", t.parse, t.format))
+		fpos := ffn.Pos()
+		if len(rows) == 0 {
+			return r.anchorFail(fmt.Errorf("anchor: no layout table in fhir.%s", t.parse))
 		}
 		// enum values of the precision type
 		enum := precisionEnum(p, t.typ)
 		if len(enum) == 0 {
 			return r.anchorFail(fmt.Errorf("anchor: no precision enum for %s", t.typ))
+		}
+		// the layout the formatter hands to Time.Format (or the pattern it hands to
+		// Sprintf) for an element of each precision, observed with the precision pinned
+		frows := map[string]string{}
+		undecidedRow := false
+		for _, pv := range enum {
+			if strings.HasSuffix(pv, "PRECISION_UNSPECIFIED") {
+				continue
+			}
+			lay, n, err := formatLayoutFor(p, ffn, t.typ, pv)
+			if err != nil {
+				return r.anchorFail(err)
+			}
+			switch n {
+			case 1:
+				frows[pv] = lay
+			case 0:
+				// no rendering observed: reported below
+			default:
+				r.undecided(fmt.Sprintf("fhirconv.%s|%s", t.format, pv), fmt.Sprintf("%s uses %d different layouts for precision %s", t.format, n, pv), p.pos(fpos), "the rendering could not be attributed to the precision")
+				undecidedRow = true
+			}
+		}
+		if undecidedRow {
+			continue
 		}
 		for _, pv := range enum {
 			if strings.HasSuffix(pv, "PRECISION_UNSPECIFIED") {
@@ -602,30 +690,230 @@ func precisionEnum(p *Program, typ string) []string {
 
 // layoutListOf: the []string{...} literal of layout constants in system.ParseX
 func layoutListOf(p *Program, fn string) ([]string, token.Pos, error) {
-	fd, pkg, err := funcDeclOf(p, "fhirpath/system", fn)
+	f, err := p.Func("fhirpath/system", fn)
 	if err != nil {
 		return nil, 0, err
 	}
+	out, ok := layoutsTriedBy(f, nil, 0)
+	if !ok || len(out) == 0 {
+		return nil, 0, fmt.Errorf("anchor: the layouts system.%s hands to time.Parse could not be enumerated", fn)
+	}
+	return out, f.Pos(), nil
+}
+
+// layoutsTriedBy: the constant layouts that fn (and the in-repo functions it
+// calls) hand to time.Parse as elements of constant string tables — a local
+// or package-level []string / [N]string literal, possibly passed down as an
+// argument (args: the values bound to fn's parameters by the caller).
+func layoutsTriedBy(fn *ssa.Function, args []ssa.Value, depth int) ([]string, bool) {
+	if depth > 3 {
+		return nil, false
+	}
 	var out []string
-	ast.Inspect(fd, func(n ast.Node) bool {
-		cl, ok := n.(*ast.CompositeLit)
-		if !ok || out != nil {
-			return true
-		}
-		if _, ok := cl.Type.(*ast.ArrayType); !ok {
-			return true
-		}
-		for _, e := range cl.Elts {
-			if tv, ok := pkg.TypesInfo.Types[e]; ok && tv.Value != nil && tv.Value.Kind() == constant.String {
-				out = append(out, constant.StringVal(tv.Value))
+	for _, b := range fn.Blocks {
+		for _, ins := range b.Instrs {
+			c, ok := ins.(*ssa.Call)
+			if !ok {
+				continue
+			}
+			sc := c.Common().StaticCallee()
+			if sc == nil {
+				continue
+			}
+			if sc.RelString(nil) == "time.Parse" {
+				tab := tableOfElement(c.Common().Args[0])
+				if tab == nil {
+					if k, ok := c.Common().Args[0].(*ssa.Const); ok && k.Value != nil && k.Value.Kind() == constant.String {
+						out = append(out, constant.StringVal(k.Value))
+						continue
+					}
+					return nil, false
+				}
+				if prm, ok := tab.(*ssa.Parameter); ok {
+					found := false
+					for i, q := range fn.Params {
+						if q == prm && i < len(args) {
+							tab, found = args[i], true
+						}
+					}
+					if !found {
+						return nil, false
+					}
+				}
+				elems, ok := constStringElems(tab, 0)
+				if !ok {
+					return nil, false
+				}
+				out = append(out, elems...)
+				continue
+			}
+			if inRepoFn(sc) && len(sc.Blocks) > 0 && strings.HasSuffix(fnPkgPath(sc), "/fhirpath/system") && callsTimeParse(sc, 0) {
+				sub, ok := layoutsTriedBy(sc, c.Common().Args, depth+1)
+				if !ok {
+					return nil, false
+				}
+				out = append(out, sub...)
 			}
 		}
-		return true
-	})
-	if len(out) == 0 {
-		return nil, 0, fmt.Errorf("anchor: system.%s has no layout list", fn)
 	}
-	return out, fd.Pos(), nil
+	return out, true
+}
+
+func callsTimeParse(fn *ssa.Function, depth int) bool {
+	if depth > 3 {
+		return false
+	}
+	for _, b := range fn.Blocks {
+		for _, ins := range b.Instrs {
+			if c, ok := ins.(*ssa.Call); ok {
+				if sc := c.Common().StaticCallee(); sc != nil {
+					if sc.RelString(nil) == "time.Parse" {
+						return true
+					}
+					if inRepoFn(sc) && sc != fn && callsTimeParse(sc, depth+1) {
+						return true
+					}
+				}
+			}
+		}
+	}
+	return false
+}
+
+// tableOfElement: v is (a conversion of) an element of a slice/array: that slice/array value.
+func tableOfElement(v ssa.Value) ssa.Value {
+	for {
+		switch x := v.(type) {
+		case *ssa.ChangeType:
+			v = x.X
+			continue
+		case *ssa.Convert:
+			v = x.X
+			continue
+		case *ssa.UnOp:
+			if ia, ok := x.X.(*ssa.IndexAddr); ok && x.Op == token.MUL {
+				return ia.X
+			}
+		case *ssa.Index:
+			return x.X
+		}
+		return nil
+	}
+}
+
+// constStringElems: the string constants stored into a table built from a
+// composite literal: a slice of a fresh array, the array itself, or a load of a
+// package-level variable initialised (once) with such a literal.
+func constStringElems(v ssa.Value, depth int) ([]string, bool) {
+	if depth > 4 {
+		return nil, false
+	}
+	switch x := v.(type) {
+	case *ssa.Slice:
+		return constStringElems(x.X, depth+1)
+	case *ssa.ChangeType:
+		return constStringElems(x.X, depth+1)
+	case *ssa.Alloc:
+		if x.Referrers() == nil {
+			return nil, false
+		}
+		byIdx := map[int64]string{}
+		for _, ref := range *x.Referrers() {
+			switch y := ref.(type) {
+			case *ssa.IndexAddr:
+				k, ok := y.Index.(*ssa.Const)
+				if !ok || k.Value == nil || y.Referrers() == nil {
+					continue // a read with a variable index
+				}
+				for _, r2 := range *y.Referrers() {
+					if st, ok := r2.(*ssa.Store); ok && st.Addr == ssa.Value(y) {
+						c, ok := st.Val.(*ssa.Const)
+						if !ok || c.Value == nil || c.Value.Kind() != constant.String {
+							return nil, false
+						}
+						ki, _ := constant.Int64Val(k.Value)
+						byIdx[ki] = constant.StringVal(c.Value)
+					}
+				}
+			case *ssa.Store:
+				if y.Addr == ssa.Value(x) {
+					return nil, false
+				}
+			}
+		}
+		var out []string
+		for i := int64(0); i < int64(len(byIdx)); i++ {
+			s, ok := byIdx[i]
+			if !ok {
+				return nil, false
+			}
+			out = append(out, s)
+		}
+		return out, len(out) > 0
+	case *ssa.UnOp:
+		if x.Op != token.MUL {
+			return nil, false
+		}
+		switch y := x.X.(type) {
+		case *ssa.Alloc:
+			return constStringElems(y, depth+1)
+		case *ssa.Global:
+			init := y.Pkg.Func("init")
+			if init == nil {
+				return nil, false
+			}
+			var src ssa.Value
+			n := 0
+			for _, b := range init.Blocks {
+				for _, ins := range b.Instrs {
+					if st, ok := ins.(*ssa.Store); ok && st.Addr == ssa.Value(y) {
+						src = st.Val
+						n++
+					}
+				}
+			}
+			if n != 1 || globalStoredOutsideInit(y) {
+				return nil, false
+			}
+			return constStringElems(src, depth+1)
+		}
+	}
+	return nil, false
+}
+
+// globalStoredOutsideInit: some function other than the package initialiser stores to g.
+func globalStoredOutsideInit(g *ssa.Global) bool {
+	for _, m := range g.Pkg.Members {
+		fns := []*ssa.Function{}
+		switch x := m.(type) {
+		case *ssa.Function:
+			fns = append(fns, x)
+		case *ssa.Type:
+			for _, t := range []types.Type{x.Type(), types.NewPointer(x.Type())} {
+				ms := g.Pkg.Prog.MethodSets.MethodSet(t)
+				for i := 0; i < ms.Len(); i++ {
+					if f := g.Pkg.Prog.MethodValue(ms.At(i)); f != nil {
+						fns = append(fns, f)
+					}
+				}
+			}
+		}
+		for k := 0; k < len(fns); k++ {
+			f := fns[k]
+			fns = append(fns, f.AnonFuncs...)
+			if f.Name() == "init" && f.Signature.Recv() == nil {
+				continue
+			}
+			for _, b := range f.Blocks {
+				for _, ins := range b.Instrs {
+					if st, ok := ins.(*ssa.Store); ok && st.Addr == ssa.Value(g) {
+						return true
+					}
+				}
+			}
+		}
+	}
+	return false
 }
 
 func layoutMap(p *Program, name string) (keys, vals []string, pos token.Pos, err error) {
